@@ -55,11 +55,16 @@ def fit_mvstud(data, tolerance=1e-6, max_iter=100):
         # root exists. It has to be evaluated where double precision can still resolve
         # it: at 1e300 every weight rounds to exactly 1 and the score is exactly 0.0
         # for any data, which made every fit return nu = inf.
-        nu_max = 1e6
-        if func0(nu_max) >= 0:
+        # Below nu = 1 the weighted scatter update collapses onto repeated points (the
+        # particles are resampled with replacement before the fit) and the score turns
+        # NaN, so the root is sought in [1, 1e6]; comparisons are written NaN-safe.
+        nu_min, nu_max = 1.0, 1e6
+        if not func0(nu_max) < 0:
             nu = np.inf
+        elif not func0(nu_min) > 0:
+            nu = nu_min
         else:
-            nu = optimize.bisect(func0, 1e-300, nu_max)
+            nu = optimize.bisect(func0, nu_min, nu_max)
         return nu
 
     data = data.T
